@@ -117,8 +117,9 @@ def body(c):
     for label in sorted(g1):
         docs = g1[label]
         g1_total += len(docs)
-        if len(docs) > cap:
-            docs = random.Random(c.seed * 7 + len(label)).sample(docs, cap)
+        lcap = cap * 3 if label in ("fragdag", "mergeargs") else cap
+        if len(docs) > lcap:
+            docs = random.Random(c.seed * 7 + len(label)).sample(docs, lcap)
             exhaustive = False
         for i, s in enumerate(docs):
             doc = valgen.tree_from_sections(json.loads(s))
@@ -138,10 +139,12 @@ def body(c):
         op_type = "subscription" if x < 0.12 else "mutation" if x < 0.22 else "query"
         base = gen.doc(op_type)
         variants = [("base", base)]
-        for j in range(per):
+        for j in range(per + 1):
             mname = names[k % len(names)] if j == 0 else None          # every mutation is used round-robin, the rest are random
             if op_type == "subscription" and j == 1:
                 mname = "subscription-root-fields"
+            if j == per:                                                # ... plus, on every base document, a fragment DAG or a pair of argument sets
+                mname = ("fragment-dag", "argument-set-pair")[b % 2]
             k += j == 0
             mm = valgen.mutate(ts, base, rng, mname) or valgen.mutate(ts, base, rng)
             if mm:
